@@ -264,6 +264,28 @@ impl Monitor for C14 {
         match rng.below(12) {
             0 => {
                 let pool: Vec<char> = "aZ09_ \t\n\r'\\\"(){}[],;:.=<>!+-*/^%&|#@~`?$\u{a0}\u{e5}\u{1F600}\u{301}\u{2028}\u{feff}\u{0}1\u{ff10}\u{b2}\u{663}\u{bd}".chars().collect();
+                if rng.chance(1, 3) {
+                    // long words of multi-byte characters at every byte alignment (an excerpt cut at a fixed number of bytes must not
+                    // land inside a character): 1-3 words of 20-300 characters of 2-, 3- or 4-byte characters behind 0-3 ASCII ones,
+                    // in statements that fail at or next to them
+                    let word = |rng: &mut Rng| -> String {
+                        let c = *rng.pick(&['\u{e5}', '\u{e5}', '\u{20ac}', '\u{1F600}', '\u{3b1}']);
+                        let n = *rng.pick(&[20usize, 31, 32, 33, 40, 63, 64, 65, 100, 127, 128, 129, 255, 256, 300]);
+                        let mut w: String = "xyz"[..rng.below(4)].to_string();
+                        for i in 0..n { w.push(if rng.chance(1, 20) { 'a' } else { c }); if i == n / 2 && rng.chance(1, 4) { w.push('_'); } }
+                        w
+                    };
+                    let (a, b2, c) = (word(rng), word(rng), word(rng));
+                    let s = match rng.below(6) {
+                        0 => format!("SELECT {} FROM", a),
+                        1 => format!("SELECT {} {} FROM t", a, b2),
+                        2 => format!("SELECT a FROM {} WHERE", a),
+                        3 => format!("{} {} {}", a, b2, c),
+                        4 => format!("SELECT '{}' , FROM {}", a, b2),
+                        _ => format!("SELECT {} ( {} ,, ) FROM t WHERE {} = = 1", a, b2, c),
+                    };
+                    return json!({"kind": "unicode", "text": s});
+                }
                 let n = rng.below(40);
                 let s: String = (0..n).map(|_| *rng.pick(&pool)).collect();
                 json!({"kind": "unicode", "text": s})
